@@ -266,7 +266,7 @@ InvariantsHold ==
     /\ Chk("C05", "invariant_C05_NoSharedName", l, C05_NoSharedName')
     /\ Chk("C06", "invariant_C06_OnlyEmitted", l, C06_OnlyEmitted')
     /\ Chk("C10", "invariant_C10_RemoteRoutesBack", l, C10_RemoteRoutesBack')
-TNext == TStep /\ InvariantsHold /\ TLCSet(1, l')
+TNext == TStep /\ (rvars' = rvars \/ InvariantsHold) /\ TLCSet(1, l')     \* (a state that did not change was judged when it was reached)
 TSpec == TInit /\ [][TNext]_tvars
 
 TraceAccepted ==
